@@ -26,6 +26,9 @@ var (
 	cfgUnbuffered   = dbCfg{Mem: 1, Imm: 0, Block: 4096, L0: 1, Ratio: 2, SL: 2}
 	cfgSmall        = dbCfg{Mem: 70, Imm: 2, Block: 30, L0: 2, Ratio: 2, SL: 4}
 	cfgMemOnly      = dbCfg{Mem: memHuge, Imm: 1, Block: 4096, L0: 2, Ratio: 2, SL: 3}
+	// one table per commit, three tables in L0 before it compacts: L0 compaction picks the front table and what
+	// overlaps it, so a newer table can go down to L1 while an older, disjoint one stays in L0
+	cfgL0Two = dbCfg{Mem: 1, Imm: 2, Block: 4096, L0: 2, Ratio: 1, SL: 1}
 )
 
 // enumSeqs calls f for every sequence of length n over alphabet (as index vectors).
@@ -63,6 +66,7 @@ func c01Units(tier string) []Unit {
 			{"all-seqs/d3/rotate-always", cfgRotateAlways, full, 3, []int{0}, true},
 			{"all-seqs/d3/unbuffered", cfgUnbuffered, full, 3, []int{0}, true},
 			{"all-seqs/d4/small", cfgSmall, single, 4, []int{0}, true},
+			{"all-seqs/d3/l0=2", cfgL0Two, full, 3, []int{0}, true},
 			{"dev1/d2/rotate-always", cfgRotateAlways, full, 2, []int{0, 1}, false},
 			{"dev1/d2/unbuffered", cfgUnbuffered, single, 2, []int{0, 1}, false},
 		}
@@ -71,6 +75,8 @@ func c01Units(tier string) []Unit {
 			{"all-seqs/d4/rotate-always", cfgRotateAlways, full, 4, []int{0}, true},
 			{"all-seqs/d4/unbuffered", cfgUnbuffered, full, 4, []int{0}, true},
 			{"all-seqs/d5/small", cfgSmall, single, 5, []int{0}, true},
+			{"all-seqs/d4/l0=2", cfgL0Two, full, 4, []int{0}, true},
+			{"dev1/d3/l0=2", cfgL0Two, full, 3, []int{0, 1}, true},
 			{"all-seqs/d3/mem-only", cfgMemOnly, full, 3, []int{0}, false},
 			{"dev1/d3/rotate-always", cfgRotateAlways, full, 3, []int{0, 1}, true},
 			{"dev1/d3/unbuffered", cfgUnbuffered, single, 3, []int{0, 1}, true},
